@@ -11,10 +11,12 @@ Open Scope N_scope.
 Record txobs := mkO {
   o_status : N; o_used : Z; o_price : Z; o_logs : list logent; o_btp : list N;
   o_bals : list (N * Z);            (* balance of every account of the universe *)
-  o_stos : list (N * N * N) }.      (* (account, key, value) for the whole key universe *)
+  o_stos : list (N * N * N);        (* (account, key, value) for the whole key universe *)
+  o_vals : list N;                  (* ValidatorState.Get(0..Len-1) *)
+  o_idx : list (N * Z) }.           (* ValidatorState.IndexOf of every externally owned account *)
 
 Inductive case :=
-| Block (p : params) (bals : list (N * Z)) (stos : list (N * N * N)) (txs : list tx)
+| Block (p : params) (bals : list (N * Z)) (stos : list (N * N * N)) (vals0 : list N) (txs : list tx)
         (obs : list txobs) (final : list (N * Z)).
 
 Fixpoint lookupZ (l : list (N * Z)) (a : N) : Z :=
@@ -22,8 +24,8 @@ Fixpoint lookupZ (l : list (N * Z)) (a : N) : Z :=
 Fixpoint lookupS (l : list (N * N * N)) (a k : N) : N :=
   match l with [] => 0 | (x, y, v) :: r => if (x =? a) && (y =? k) then v else lookupS r a k end.
 
-Definition mk_state (bals : list (N * Z)) (stos : list (N * N * N)) : wstate :=
-  mkW (lookupZ bals) (lookupS stos).
+Definition mk_state (bals : list (N * Z)) (stos : list (N * N * N)) (vs : list N) : wstate :=
+  mkW (lookupZ bals) (lookupS stos) vs.
 
 Definition logent_eqb (a b : logent) : bool :=
   match a, b with
@@ -44,6 +46,9 @@ Definition bals_match (s : wstate) (l : list (N * Z)) : bool :=
 Definition stos_match (s : wstate) (l : list (N * N * N)) : bool :=
   forallb (fun '(a, k, v) => sto s a k =? v) l.
 
+Definition vals_match (s : wstate) (o : txobs) : bool :=
+  list_eqb N.eqb (vals s) (o_vals o) && forallb (fun '(a, i) => Z.eqb (index_of a (vals s)) i) (o_idx o).
+
 Definition receipt_match (r : receipt) (o : txobs) : bool :=
   (r_status r =? o_status o) && Z.eqb (r_used r) (o_used o) && Z.eqb (r_price r) (o_price o)
   && list_eqb logent_eqb (r_logs r) (o_logs o) && list_eqb N.eqb (r_btp r) (o_btp o)
@@ -56,7 +61,7 @@ Fixpoint replay (p : params) (txs : list tx) (obs : list txobs) (s : wstate) (ac
   | [], [] => Some (s, acc)
   | t :: txs', o :: obs' =>
       let '(r, s1) := execute p t s in
-      if receipt_match r o && bals_match s1 (o_bals o) && stos_match s1 (o_stos o)
+      if receipt_match r o && bals_match s1 (o_bals o) && stos_match s1 (o_stos o) && vals_match s1 o
       then replay p txs' obs' s1 (acc + fee_of r)%Z
       else None
   | _, _ => None
@@ -64,12 +69,12 @@ Fixpoint replay (p : params) (txs : list tx) (obs : list txobs) (s : wstate) (ac
 
 Definition check (c : case) : bool :=
   match c with
-  | Block p bals stos txs obs final =>
-      match replay p txs obs (mk_state bals stos) 0%Z with
+  | Block p bals stos vals0 txs obs final =>
+      match replay p txs obs (mk_state bals stos vals0) 0%Z with
       | None => false
       | Some (s, g) =>
           (* the block-level function must agree with the step-wise replay, and with the node *)
-          let '(rs, sf) := exec_block p txs (mk_state bals stos) in
+          let '(rs, sf) := exec_block p txs (mk_state bals stos vals0) in
           Z.eqb (gathered rs) g && bals_match sf final
           && bals_match (set_bal s (p_treasury p) (bal s (p_treasury p) + g)%Z) final
       end
